@@ -536,6 +536,27 @@ func all() []opLit {
 		{"qr-w-kanji", func() string {
 			return write(qrcode.NewQRCodeWriter(), "漢字点茗", QR, 0, 0, H{gozxing.EncodeHintType_CHARACTER_SET: "Shift_JIS"})
 		}},
+		// TWINS: the same request shape (mode, length, hints) with another content. State that is
+		// keyed by the shape of a request - a buffer handed from one phase of a call to the next, a
+		// memo keyed by length - collides only between two different contents of one shape; an
+		// operation paired with itself writes the same bytes twice and cannot show it.
+		{"qr-w-kanji-twin", func() string {
+			return write(qrcode.NewQRCodeWriter(), "茗点字漢", QR, 0, 0, H{gozxing.EncodeHintType_CHARACTER_SET: "Shift_JIS"})
+		}},
+		{"qr-w-v1-twin", func() string { return write(qrcode.NewQRCodeWriter(), "WORLD", QR, 0, 0, nil) }},
+		{"qr-w-eci-8859-2-twin", func() string {
+			return write(qrcode.NewQRCodeWriter(), "Żółć", QR, 0, 0, H{gozxing.EncodeHintType_CHARACTER_SET: "ISO-8859-2"})
+		}},
+		{"dm-w-ascii-twin", func() string { return write(datamatrix.NewDataMatrixWriter(), "World 654321", DM, 0, 0, nil) }},
+		{"dm-w-c40-x12-twin", func() string {
+			return write(datamatrix.NewDataMatrixWriter(), "PONMLKJIHGFEDCBA>*>*>*321CBA", DM, 60, 60, nil)
+		}},
+		{"ean13-w-twin", func() string {
+			return write(oned.NewEAN13Writer(), "400638133393", gozxing.BarcodeFormat_EAN_13, 200, 40, nil)
+		}},
+		{"code128-w-twin", func() string {
+			return write(oned.NewCode128Writer(), "Twin-128 4321", gozxing.BarcodeFormat_CODE_128, 0, 20, nil)
+		}},
 		{"qr-w-eci-8859-2", func() string {
 			return write(qrcode.NewQRCodeWriter(), "Łódź", QR, 0, 0, H{gozxing.EncodeHintType_CHARACTER_SET: "ISO-8859-2"})
 		}},
